@@ -6,7 +6,7 @@
 (* sorted per cell by svgbob's own comparison, rect endorsement through the greedy parallel   *)
 (* pairing, re-fragmentation of rejected spans in isolation.  Deliberate deviation: exact     *)
 (* integer geometry where the code uses f32.                                                 *)
-EXTENDS Glyphs, SequencesExt, TLC
+EXTENDS Glyphs, CatalogueTables, SequencesExt, TLC
 
 ------------------------------------------------------------------------
 (* generic greedy merge (merge.rs)                                                         *)
@@ -51,6 +51,30 @@ ChAt(cs, x, y) == IF \E i \in 1..Len(cs) : cs[i][1] = x /\ cs[i][2] = y
                   THEN cs[CHOOSE i \in 1..Len(cs) : cs[i][1] = x /\ cs[i][2] = y][3] ELSE cSP
 
 ------------------------------------------------------------------------
+(* stage 6: catalogue lookup (span.rs endorse_to_arcs_and_circles, circle_map.rs endorse_*_span): the  *)
+(* span, moved to the origin, is searched for a catalogue drawing it CONTAINS (every cell of the        *)
+(* drawing with its character); tables are scanned from their last entry (largest first), circles       *)
+(* before three-quarter arcs before half arcs before quarter arcs.  The matched cells leave the span.   *)
+SpanTL(sp) == << SetMin({ c[1] : c \in RangeOf(sp) }), SetMin({ c[2] : c \in RangeOf(sp) }) >>
+Localized(cs, sp) == LET tl == SpanTL(sp) IN { <<c[1] - tl[1], c[2] - tl[2], ChAt(cs, c[1], c[2])>> : c \in RangeOf(sp) }
+LastMatch(T, L) == LET idx == { i \in 1..Len(T) : T[i].span \subseteq L } IN IF idx = {} THEN 0 ELSE SetMax(idx)
+MoveFrag(f, tl) == LET dx == CW * tl[1] dy == CH * tl[2] IN
+  IF f.k = "C" THEN [f EXCEPT !.c = <<f.c[1] + dx, f.c[2] + dy>>]
+  ELSE [f EXCEPT !.s = <<f.s[1] + dx, f.s[2] + dy>>, !.e = <<f.e[1] + dx, f.e[2] + dy>>]
+CatPick(T, cs, sp) ==       \* <<accepted fragments, rest of the span>>
+  LET L == Localized(cs, sp) tl == SpanTL(sp) i == LastMatch(T, L) IN
+  << << MoveFrag(T[i].f, tl) >>,
+     SelectSeq(sp, LAMBDA c : <<c[1] - tl[1], c[2] - tl[2], ChAt(cs, c[1], c[2])>> \notin T[i].span) >>
+EndorseCat(cs, sp) ==
+  IF sp = <<>> THEN << <<>>, sp >>
+  ELSE LET L == Localized(cs, sp) IN
+       IF LastMatch(CatCircles, L) > 0 THEN CatPick(CatCircles, cs, sp)
+       ELSE IF LastMatch(CatThreeQuarters, L) > 0 THEN CatPick(CatThreeQuarters, cs, sp)
+       ELSE IF LastMatch(CatHalf, L) > 0 THEN CatPick(CatHalf, cs, sp)
+       ELSE IF LastMatch(CatQuarter, L) > 0 THEN CatPick(CatQuarter, cs, sp)
+       ELSE << <<>>, sp >>
+
+------------------------------------------------------------------------
 (* stage 7: fragments of a cell, given the characters of its own span only                 *)
 ChIn(cs, sp, x, y) == IF <<x, y>> \in RangeOf(sp) THEN ChAt(cs, x, y) ELSE cSP
 Neigh(cs, sp, cl) ==
@@ -59,13 +83,13 @@ Neigh(cs, sp, cl) ==
    bl |-> ChIn(cs, sp, cl[1]-1, cl[2]+1), b |-> ChIn(cs, sp, cl[1], cl[2]+1), br |-> ChIn(cs, sp, cl[1]+1, cl[2]+1)]
 Mins(fr) == <<Min2(fr.s[1], fr.e[1]), Min2(fr.s[2], fr.e[2])>>
 Maxs(fr) == <<Max2(fr.s[1], fr.e[1]), Max2(fr.s[2], fr.e[2])>>
-Rank(fr) == IF fr.k = "L" THEN 10 ELSE 40
+Rank(fr) == IF fr.k = "L" THEN 10 ELSE IF fr.k = "C" THEN 30 ELSE 40
 BLt(x, z) == x = FALSE /\ z = TRUE
 FragLt(x, z) ==
   IF x.k = "L" /\ z.k = "L"
     THEN PLt(x.s, z.s) \/ (x.s = z.s /\ (PLt(x.e, z.e) \/ (x.e = z.e /\ BLt(x.b, z.b))))
   ELSE IF x.k = "A" /\ z.k = "A"
-    THEN PLt(x.s, z.s) \/ (x.s = z.s /\ (PLt(x.e, z.e) \/ (x.e = z.e /\ (x.r < z.r \/ (x.r = z.r /\ BLt(x.sw, z.sw))))))
+    THEN PLt(x.s, z.s) \/ (x.s = z.s /\ (PLt(x.e, z.e) \/ (x.e = z.e /\ (x.r < z.r \/ (x.r = z.r /\ (BLt(x.mj, z.mj) \/ (x.mj = z.mj /\ BLt(x.sw, z.sw))))))))
   ELSE PLt(Mins(x), Mins(z)) \/ (Mins(x) = Mins(z) /\ (PLt(Maxs(x), Maxs(z)) \/ (Maxs(x) = Maxs(z) /\ Rank(x) < Rank(z))))
 Shift(fr, cl) == LET mv(p) == <<p[1] + CW * cl[1], p[2] + CH * cl[2]>> IN
                  [fr EXCEPT !.s = mv(fr.s), !.e = mv(fr.e)]
@@ -153,12 +177,15 @@ Endorsable(GG) == IsRectGroup(GG) \/ IsRoundedGroup(GG)
 \* (a fragment remembers the cells whose characters produced it: FragmentSpan.span)
 GroupCells(GG) == FoldLeft(LAMBDA lst, fr : lst \o fr.cells, <<>>, GG)
 SpanResult(cs, sp) ==
-  LET groups == ContactsOf(Merged(cs, sp))
+  LET e1 == EndorseCat(cs, sp)
+      groups == ContactsOf(Merged(cs, e1[2]))
       rects == SelectSeq(groups, Endorsable)
       rej == SelectSeq(groups, LAMBDA GG : ~Endorsable(GG))
       rspans == MergeRec([i \in 1..Len(rej) |-> GroupCells(rej[i])], SpanCan, SpanMrg)
-      regroups == FoldLeft(LAMBDA lst, sp2 : lst \o ContactsOf(Merged(cs, sp2)), <<>>, rspans)
-  IN [rects |-> [i \in 1..Len(rects) |-> RectOf(rects[i])],
+      e2 == [i \in 1..Len(rspans) |-> EndorseCat(cs, rspans[i])]
+      regroups == FoldLeft(LAMBDA lst, e : lst \o ContactsOf(Merged(cs, e[2])), <<>>, e2)
+  IN [cat |-> e1[1] \o FoldLeft(LAMBDA lst, e : lst \o e[1], <<>>, e2),
+      rects |-> [i \in 1..Len(rects) |-> RectOf(rects[i])],
       singles |-> FoldLeft(LAMBDA lst, GG : IF Len(GG) = 1 THEN Append(lst, GG[1]) ELSE lst, <<>>, regroups),
       groups |-> SelectSeq(regroups, LAMBDA GG : Len(GG) > 1)]
 
@@ -168,11 +195,12 @@ SpanResult(cs, sp) ==
 B01(b) == IF b THEN 1 ELSE 0
 Strip(fr) ==
   IF fr.k = "L" THEN <<"line", fr.s[1], fr.s[2], fr.e[1], fr.e[2], B01(fr.b)>>
-  ELSE IF fr.k = "A" THEN <<"path", fr.s[1], fr.s[2], fr.r, B01(fr.sw), fr.e[1], fr.e[2]>>
+  ELSE IF fr.k = "A" THEN <<"path", fr.s[1], fr.s[2], fr.r, B01(fr.sw), fr.e[1], fr.e[2], B01(fr.mj)>>
+  ELSE IF fr.k = "C" THEN <<"circle", fr.c[1], fr.c[2], fr.r>>
   ELSE IF fr.k = "R" THEN <<"rect", fr.s[1], fr.s[2], fr.e[1] - fr.s[1], fr.e[2] - fr.s[2], fr.r, B01(fr.b)>>
   ELSE <<"text", fr.cell[1] * CW + 2, fr.cell[2] * CH + 12, fr.s>>
 Flatten(results) ==
-  LET flat == FoldLeft(LAMBDA lst, rr : lst \o rr.rects \o rr.singles
+  LET flat == FoldLeft(LAMBDA lst, rr : lst \o rr.cat \o rr.rects \o rr.singles
                           \o FoldLeft(LAMBDA a2, GG : a2 \o GG, <<>>, rr.groups), <<>>, results)
   IN [i \in 1..Len(flat) |-> Strip(flat[i])]
 Output(rws) == LET cs == CellSeq(rws) sps == SpansOf(cs) IN
